@@ -45,15 +45,28 @@ def script_key(s, order):
     return None
 
 def const_values(src):
-    """values of the `const int|float Ck = ...;` lines of a generated source"""
-    out = {}
+    """values of the `const int|float Ck = ...;` lines of a generated source, evaluated from the source text in
+    dependency order (the declarations may come in any order, refer to each other, use sigils and casts)"""
+    decls = {}
     for m in re.finditer(r'const\s+(int|float)\s+(\w+)\s*=\s*([^;]+);', src):
         ty, name, expr = m.groups()
-        try:
-            val = eval(expr, {'__builtins__': {}}, {})
-        except Exception:
-            continue
-        out[name] = (ty, val)
+        decls[name] = (ty, expr)
+    out = {}
+    progress = True
+    while progress and len(out) < len(decls):
+        progress = False
+        for name, (ty, expr) in decls.items():
+            if name in out: continue
+            refs = set(re.findall(r'[$%]?([A-Za-z_]\w*)', expr)) - {'int', 'float'}
+            if not refs <= set(out): continue
+            e = re.sub(r'[$%]?([A-Za-z_]\w*)', lambda m: m.group(0) if m.group(1) in ('int', 'float') else repr(out[m.group(1)][1]), expr)
+            try:
+                val = eval(e, {'__builtins__': {}}, {'int': int, 'float': float})
+            except Exception:
+                continue
+            if ty == 'int': val = ((int(val) + 2**31) % 2**32) - 2**31
+            else: val = f32(float(val))
+            out[name] = (ty, val); progress = True
     return out
 
 def check_program(fam, game, src_path, json_path, dump):
